@@ -31,6 +31,9 @@ func standaloneProduct(maxN int, visit func(idx int, sc *scen.Scenario, sig stri
 							if idx%3 == 1 {
 								v.Payload = 1 + (idx*7)%160
 							}
+							if idx%5 == 2 {
+								ns.Conc = 1 + idx%3 // a batch concurrency configured on a plain node must change nothing
+							}
 							ns.Visits = []scen.Visit{v}
 							sc := &scen.Scenario{Nodes: []scen.NodeSpec{ns}, Root: 0, Runs: 1}
 							sig := fmt.Sprintf("k%d n%d k%d fb%d p%d q%d", kind, n, k, fb, prep, post)
@@ -80,7 +83,7 @@ func runC01(c *Cfg) {
 	r.Exhaustive = true
 	r.Note(fmt.Sprintf("standalone product enumerated completely: %d cases (11 node kinds x budgets 1..8 x first-success index 1..N+1 x fallback x prep x post)", len(cases)))
 	// 2. nodes embedded in generated flows, with one run-ending failure injected at a random on-path position
-	nFlows := c.Pick(3000, 60000)
+	nFlows := c.Pick(20000, 300000)
 	parallel(c, nFlows, func(i int) {
 		rg := c.Rng("c01flow", i)
 		sc := scen.GenFlowScenario(rg, scen.GenOpts{MaxNodes: 12, MaxActions: 5, MaxDepth: 3, Failures: true, Zoo: true})
@@ -183,6 +186,44 @@ func runC02(c *Cfg) {
 	})
 	r.Exhaustive = true
 	r.Note(fmt.Sprintf("standalone retry/fallback product enumerated completely: %d cases; batch items are decided by the gated batch engine below", len(cases)))
+	// a context that carries a far deadline (never reached) must not change the number of attempts: retry wait > 0
+	var dl []*scen.Scenario
+	for kind := 0; kind < scen.NumScriptedKinds; kind++ {
+		if !scen.KindHasRetry(kind) {
+			continue
+		}
+		for _, n := range []int{4, 8} {
+			for k := 2; k <= 2; k++ {
+				for _, fb := range []bool{false, true} {
+					if fb && !scen.KindCanFB(kind) {
+						continue
+					}
+					ns := scen.NodeSpec{Kind: kind, N: n, HasFB: fb, WaitMs: 15, Visits: []scen.Visit{{FirstOK: k, Post: "go"}}}
+					dl = append(dl, &scen.Scenario{Nodes: []scen.NodeSpec{ns}, Root: 0, Runs: 1, Inject: scen.Inject{Kind: "far-deadline", At: (n - 1) * 15 * 7 / 10}})
+				}
+			}
+		}
+	}
+	parallelN(c, len(dl), 32, func(i int) {
+		for try := 0; try < 4; try++ {
+			x := scen.NewExec(dl[i])
+			o := x.RunOnce()
+			r.Eval()
+			if o.Discard {
+				r.Count("far_deadline.discarded_deadline_reached", 1)
+				continue
+			}
+			o.CancelSeq = -1
+			r.Count("far_deadline.runs", 1)
+			for _, f := range scen.Judge(dl[i], nil, &o) {
+				if f.Prop == "C02" {
+					r.Violate("C02", "C02:far-deadline:"+f.Key, "context with a deadline "+fmt.Sprint(dl[i].Inject.At)+" ms away (not reached), retry wait 15 ms: "+f.Detail, ScenCase{"far-deadline", dl[i]})
+				}
+			}
+			r.Nontrivial("dl:" + scenSig(dl[i]))
+			break
+		}
+	})
 	runC02Batch(c)
 }
 
